@@ -1,6 +1,6 @@
 (* C01 / C12: dependent steps are run for every place of a step's result, each once, in order. *)
-From Coq Require Import List String Bool Arith Lia.
-From Pebbles Require Import Base.Json Exec.PointData Exec.Points.
+From Coq Require Import List String Ascii Bool Arith Lia.
+From Pebbles Require Import Base.Json Base.Str Net.Decode Exec.PointData Exec.Points.
 Import ListNotations.
 Open Scope string_scope.
 Open Scope list_scope.
@@ -153,4 +153,115 @@ Proof.
     cbn; eexists; eexists; (split; [reflexivity|]); (split; [reflexivity|]); cbn; eexists; (split; [reflexivity|]); (split; [discriminate|]);
     cbn; eexists; eexists; (split; [reflexivity|]); (split; [reflexivity|]); cbn; eexists; (split; [reflexivity|]);
     repeat constructor; eexists; (split; [reflexivity|]); (split; [intros _; eexists; reflexivity|exact I]).
+Qed.
+
+(* ---- the places that are found are the places the results are merged into ----
+   ExtractValueModifyingSource, on a result that already has the structure, follows a path point by point: a point with
+   ':' before any '#' selects an entry of a list, any other point an object *)
+Fixpoint resolve (path : list string) (chunk : list (string * json)) {struct path} : option (list (string * json)) :=
+  match path with
+  | [] => Some chunk
+  | pt :: rest =>
+      match extract pt with
+      | None => None
+      | Some pd =>
+          if is_list_element pt then
+            match assoc (pd_field pd) chunk, pd_index pd with
+            | Some (JArr l), Some i => match nth_error l i with Some (JObj o) => resolve rest o | _ => None end
+            | _, _ => None
+            end
+          else
+            match assoc (pd_field pd) chunk with
+            | Some (JObj o) => resolve rest o
+            | _ => None
+            end
+      end
+  end.
+
+Definition clean_key (k : string) : Prop := has_char "#" k = false /\ has_char ":" k = false /\ k <> "".
+
+Lemma extract_plain k : clean_key k -> extract k = Some (mkPD k None "").
+Proof. intros (Hh & Hc & _). unfold extract. now rewrite (split_first_none "#" k Hh), (split_first_none ":" k Hc). Qed.
+
+Lemma is_list_list_point k i id : clean_key k -> is_list_element (render_list_point k i id) = true.
+Proof.
+  intros (Hh & Hc & _). unfold is_list_element, render_list_point.
+  assert (E : (k ++ ":" ++ nat_to_string i ++ "#" ++ id = (k ++ ":" ++ nat_to_string i) ++ String "#" id)%string) by (rewrite !str_app_assoc; reflexivity).
+  rewrite E, split_first_app by (rewrite !has_char_app, Hh, digit_chars_only_hash; reflexivity).
+  destruct (k ++ ":" ++ nat_to_string i)%string eqn:Ek.
+  - destruct k; discriminate.
+  - rewrite <- Ek, !has_char_app. cbn. now rewrite orb_true_r.
+Qed.
+Lemma is_list_list_step k i : clean_key k -> is_list_element (render_list_step k i) = true.
+Proof.
+  intros (Hh & Hc & _). unfold is_list_element, render_list_step.
+  rewrite (split_first_none "#") by (rewrite !has_char_app, Hh; cbn; apply digit_chars_only_hash).
+  rewrite !has_char_app. cbn. now rewrite orb_true_r.
+Qed.
+Lemma is_list_obj_point k id : clean_key k -> is_list_element (render_obj_point k id) = false.
+Proof.
+  intros (Hh & Hc & Hne). unfold is_list_element, render_obj_point.
+  change (k ++ "#" ++ id)%string with (k ++ String "#" id)%string. rewrite split_first_app by exact Hh.
+  destruct k; [contradiction|exact Hc].
+Qed.
+Lemma is_list_plain k : clean_key k -> is_list_element k = false.
+Proof. intros (Hh & Hc & _). unfold is_list_element. now rewrite (split_first_none "#" k Hh). Qed.
+
+(* the id a path ends with *)
+Definition last_id (p : list string) : string :=
+  match rev p with [] => "" | pt :: _ => match extract pt with Some pd => pd_id pd | None => "" end end.
+
+Lemma last_id_snoc_cons q x y : last_id (x :: q ++ [y]) = last_id (q ++ [y]).
+Proof. unfold last_id. cbn [rev]. rewrite !rev_app_distr. reflexivity. Qed.
+
+Theorem found_places_are_where_results_go : forall rest ss chunk branch p,
+  Forall clean_key rest -> In p (paths rest ss chunk branch) ->
+  exists q o, p = branch ++ q /\ resolve q chunk = Some o /\ (rest <> [] -> last_id q = id_of o).
+Proof.
+  induction rest as [|point rest' IH]; intros ss chunk branch p Hk Hin; cbn [paths] in Hin.
+  - destruct Hin as [<-|[]]. exists [], chunk. split; [now rewrite app_nil_r|]. split; [reflexivity|]. intros H; contradiction.
+  - inversion Hk as [|? ? Hkp Hkr]; subst.
+    destruct (find_selection point ss) as [sel|]; [|contradiction]. destruct (assoc point chunk) as [v|] eqn:Ev; [|contradiction].
+    (* one step below an object o reached through the point x *)
+    assert (Hstep : forall x o, In p (paths rest' (fsub sel) o (branch ++ [x])) ->
+              (rest' = [] -> last_id [x] = id_of o) ->
+              (forall q o', resolve q o = Some o' -> resolve (x :: q) chunk = Some o') ->
+              exists q o', p = branch ++ q /\ resolve q chunk = Some o' /\ (point :: rest' <> [] -> last_id q = id_of o')).
+    { intros x o Hp Hlast Hres. destruct (IH _ _ _ _ Hkr Hp) as (q & o' & -> & Hr & Hl).
+      exists (x :: q), o'. split; [now rewrite <- app_assoc|]. split; [now apply Hres|]. intros _.
+      destruct rest' as [|r0 rr].
+      - cbn [paths] in Hp. destruct Hp as [Hp|[]].
+        assert (Eq : q = []) by (apply (app_inv_head (branch ++ [x])); now rewrite app_nil_r). subst q.
+        cbn in Hr. inversion Hr; subst o'. now apply Hlast.
+      - rewrite <- (Hl ltac:(discriminate)). destruct (IH _ _ _ _ Hkr Hp) as (q2 & o2 & E2 & _ & _). apply app_inv_head in E2. subst q2.
+        destruct q as [|y q'] using rev_ind; [|now rewrite last_id_snoc_cons].
+        exfalso. apply paths_extend in Hp as [Hlen _]. rewrite app_nil_r, app_length in Hlen. cbn in Hlen. lia. }
+    destruct (flist sel).
+    + destruct v as [| | | |l| |]; try contradiction.
+      assert (G : forall l0 i, (forall j e, nth_error l0 j = Some e -> nth_error l (i + j) = Some e) ->
+                In p ((fix each (l : list json) (i : nat) : list (list string) :=
+                   match l with
+                   | [] => []
+                   | JObj o :: t => paths rest' (fsub sel) o (branch ++ [if is_last rest' then render_list_point point i (id_of o) else render_list_step point i]) ++ each t (S i)
+                   | _ :: t => each t (S i)
+                   end) l0 i) ->
+                exists q o', p = branch ++ q /\ resolve q chunk = Some o' /\ (point :: rest' <> [] -> last_id q = id_of o')).
+      { induction l0 as [|e t IHl]; intros i Hnth Hp; [contradiction|].
+        assert (Ht : forall j e0, nth_error t j = Some e0 -> nth_error l (S i + j) = Some e0).
+        { intros j e0 Hj. specialize (Hnth (S j) e0 Hj). now rewrite Nat.add_succ_r in Hnth. }
+        destruct e as [| | | | |o|]; try (now apply (IHl (S i) Ht)).
+        apply in_app_or in Hp as [Hp|Hp]; [|now apply (IHl (S i) Ht)].
+        specialize (Hnth 0 (JObj o) eq_refl). rewrite Nat.add_0_r in Hnth.
+        apply (Hstep _ o Hp).
+        - intros ->. cbn [is_last]. unfold last_id. cbn [rev app]. now rewrite (extract_list_point point i (id_of o) (proj1 Hkp) (proj1 (proj2 Hkp))).
+        - intros q o' Hr. cbn [resolve]. destruct (is_last rest').
+          + rewrite (extract_list_point point i (id_of o) (proj1 Hkp) (proj1 (proj2 Hkp))), (is_list_list_point _ _ _ Hkp). cbn [pd_field pd_index]. now rewrite Ev, Hnth.
+          + rewrite (extract_list_step point i (proj1 Hkp) (proj1 (proj2 Hkp))), (is_list_list_step _ _ Hkp). cbn [pd_field pd_index]. now rewrite Ev, Hnth. }
+      apply (G l 0); [intros j e Hj; exact Hj|exact Hin].
+    + destruct v as [| | | | |o|]; try contradiction.
+      apply (Hstep _ o Hin).
+      * intros ->. cbn [is_last]. unfold last_id. cbn [rev app]. now rewrite (extract_obj_point point (id_of o) (proj1 Hkp) (proj1 (proj2 Hkp))).
+      * intros q o' Hr. cbn [resolve]. destruct (is_last rest').
+        -- rewrite (extract_obj_point point (id_of o) (proj1 Hkp) (proj1 (proj2 Hkp))), (is_list_obj_point _ _ Hkp). cbn [pd_field]. now rewrite Ev.
+        -- rewrite (extract_plain point Hkp), (is_list_plain _ Hkp). cbn [pd_field]. now rewrite Ev.
 Qed.
